@@ -49,7 +49,7 @@ def gen_case(rng, tier, index):
                 "temp": rng.random() < 0.4}
     w = index % 4
     if w == 0:
-        c = c12.gen_case(rng, tier, index)
+        c = c12.gen_case(rng, tier, index, programs_only=True)
         c["w"] = "undef"
         c["allow_undef"] = rng.random() < 0.5
         # sprinkle references to unknown names
@@ -71,7 +71,7 @@ def gen_case(rng, tier, index):
                                rng.random() < 0.5]
         return c
     if w == 1:
-        c = c12.gen_case(rng, tier, index)
+        c = c12.gen_case(rng, tier, index, programs_only=True)
         c["w"] = "multidef"
         c["dup"] = rng.choice(["module", "own", "module-temp"])
         name = rng.choice(["msym_code", "msym_data", "mext"]) \
@@ -102,7 +102,7 @@ def gen_case(rng, tier, index):
                 # every copy defines the very same global name
                 "same_global": rng.random() < 0.15,
                 "set_const": rng.random() < 0.3}
-    c = c12.gen_case(rng, tier, index)
+    c = c12.gen_case(rng, tier, index, programs_only=True)
     c["w"] = "chunks"
     c["allow_undef"] = False
     c["split_seed"] = rng.randrange(1 << 30)
